@@ -6,6 +6,98 @@ import z3
 from .sym import _t, Sym
 
 
+import threading
+
+
+def guarded_check(solver, timeout_ms):
+    """solver.check() with a watchdog: z3's own timeout is not always honoured inside nlsat, so the
+    context is interrupted from a timer thread (the answer is then 'unknown')"""
+    t = threading.Timer(timeout_ms / 1000.0 * 1.3 + 0.5, solver.ctx.interrupt)
+    t.daemon = True
+    t.start()
+    try:
+        return str(solver.check())
+    except z3.Z3Exception:
+        return 'unknown'
+    finally:
+        t.cancel()
+
+
+def _model_dict(m):
+    out = {}
+    for d in m.decls():
+        if d.arity() != 0:
+            continue
+        v = m[d]
+        try:
+            if z3.is_rational_value(v):
+                fr = v.as_fraction()
+                out[d.name()] = fr.numerator / fr.denominator
+            elif z3.is_algebraic_value(v):
+                fr = v.approx(20).as_fraction()
+                out[d.name()] = fr.numerator / fr.denominator
+        except Exception:
+            pass
+    return out
+
+
+def forked_check(assertions, timeout_ms):
+    """decide satisfiability in a forked child that is killed at the deadline (z3's nlsat can
+    ignore both its timeout and interrupts); returns (verdict, model dict or None)"""
+    import json
+    import os
+    import select
+    import signal
+    rfd, wfd = os.pipe()
+    pid = os.fork()
+    if pid == 0:
+        try:
+            os.close(rfd)
+            s = z3.Solver()
+            s.set("timeout", int(timeout_ms))
+            for a in assertions:
+                s.add(a)
+            r = str(s.check())
+            md = _model_dict(s.model()) if r == 'sat' else None
+            os.write(wfd, json.dumps([r, md]).encode())
+        except BaseException:
+            pass
+        finally:
+            os._exit(0)
+    os.close(wfd)
+    buf = b""
+    deadline = time.time() + timeout_ms / 1000.0 * 1.2 + 1.0
+    try:
+        while True:
+            left = deadline - time.time()
+            if left <= 0:
+                break
+            rd, _, _ = select.select([rfd], [], [], left)
+            if not rd:
+                break
+            chunk = os.read(rfd, 1 << 16)
+            if not chunk:
+                break
+            buf += chunk
+    finally:
+        os.close(rfd)
+        try:
+            os.kill(pid, signal.SIGKILL)
+        except OSError:
+            pass
+        try:
+            os.waitpid(pid, 0)
+        except OSError:
+            pass
+    if not buf:
+        return 'unknown', None
+    try:
+        r, md = json.loads(buf.decode())
+        return r, md
+    except Exception:
+        return 'unknown', None
+
+
 class Stats:
     def __init__(self):
         self.obligations = 0
@@ -49,6 +141,135 @@ def is_zero_by_rewriter(t):
         return False
     except z3.Z3Exception:
         return False
+
+
+class _PolyTooBig(Exception):
+    pass
+
+
+def _padd(p, q, sign=1):
+    r = dict(p)
+    for m, c in q.items():
+        v = r.get(m, 0) + sign * c
+        if v == 0:
+            r.pop(m, None)
+        else:
+            r[m] = v
+    return r
+
+
+def _pmul(p, q, limit=400000):
+    if len(p) * len(q) > 4 * limit:
+        raise _PolyTooBig()
+    r = {}
+    for m1, c1 in p.items():
+        for m2, c2 in q.items():
+            m = tuple(sorted(m1 + m2))
+            v = r.get(m, 0) + c1 * c2
+            if v == 0:
+                r.pop(m, None)
+            else:
+                r[m] = v
+        if len(r) > limit:
+            raise _PolyTooBig()
+    return r
+
+
+class _RatNorm:
+    """numerator / denominator normal form (polynomials with exact rational coefficients over
+    atoms: variables, UF applications, If-terms) of a term built from + - * /; decides
+    rational-function identities without the solver"""
+
+    def __init__(self, atomize_affine=False):
+        self.memo = {}
+        self.atomize_affine = atomize_affine
+        self._aff = {}
+
+    def nd(self, e):
+        k = e.get_id()
+        if k not in self.memo:
+            self.memo[k] = self._nd(e)
+        return self.memo[k]
+
+    def is_affine_sum(self, e):
+        """ADD node whose summands are atoms or numeral multiples of atoms"""
+        k = e.get_id()
+        if k in self._aff:
+            return self._aff[k]
+        ok = e.decl().kind() in (z3.Z3_OP_ADD, z3.Z3_OP_SUB)
+        if ok:
+            for c in e.children():
+                ck = c.decl().kind()
+                if z3.is_rational_value(c):
+                    continue
+                if ck == z3.Z3_OP_MUL:
+                    cc = c.children()
+                    if len(cc) == 2 and z3.is_rational_value(cc[0]) and cc[1].decl().kind() not in (
+                            z3.Z3_OP_ADD, z3.Z3_OP_SUB, z3.Z3_OP_MUL, z3.Z3_OP_DIV):
+                        continue
+                    ok = False
+                    break
+                if ck in (z3.Z3_OP_ADD, z3.Z3_OP_SUB, z3.Z3_OP_DIV, z3.Z3_OP_UMINUS):
+                    ok = False
+                    break
+        self._aff[k] = ok
+        return ok
+
+    def factor(self, c):
+        """normal form of a factor of a product / operand of a quotient"""
+        if self.atomize_affine and self.is_affine_sum(c):
+            from fractions import Fraction
+            return {(c.get_id(),): Fraction(1)}, {(): Fraction(1)}
+        return self.nd(c)
+
+    def _nd(self, e):
+        from fractions import Fraction
+        one = {(): Fraction(1)}
+        if z3.is_rational_value(e):
+            fr = e.as_fraction()
+            fr = Fraction(fr.numerator, fr.denominator)
+            return ({(): fr} if fr != 0 else {}), one
+        kind = e.decl().kind()
+        ch = e.children()
+        if kind in (z3.Z3_OP_ADD, z3.Z3_OP_SUB):
+            n, d = self.nd(ch[0])
+            for c in ch[1:]:
+                n2, d2 = self.nd(c)
+                sg = -1 if kind == z3.Z3_OP_SUB else 1
+                if d2 == d:
+                    n = _padd(n, n2, sg)
+                else:
+                    n, d = _padd(_pmul(n, d2), _pmul(n2, d), sg), _pmul(d, d2)
+            return n, d
+        if kind == z3.Z3_OP_UMINUS:
+            n, d = self.nd(ch[0])
+            return {m: -c for m, c in n.items()}, d
+        if kind == z3.Z3_OP_MUL:
+            n, d = one, one
+            for c in ch:
+                n2, d2 = self.factor(c)
+                n, d = _pmul(n, n2), _pmul(d, d2)
+            return n, d
+        if kind == z3.Z3_OP_DIV:
+            n1, d1 = self.factor(ch[0])
+            n2, d2 = self.factor(ch[1])
+            return _pmul(n1, d2), _pmul(d1, n2)
+        return {(e.get_id(),): Fraction(1)}, one
+
+
+def is_zero_by_ratnorm(a, b):
+    """a == b as rational functions (denominators are covered by the definedness conditions)"""
+    sa, sb = z3.simplify(a), z3.simplify(b)
+    for atomize in (True, False):
+        try:
+            rn = _RatNorm(atomize_affine=atomize)
+            na, da = rn.nd(sa)
+            nb, db = rn.nd(sb)
+            if len(_padd(_pmul(na, db, 60000), _pmul(nb, da, 60000), -1)) == 0:
+                return True
+        except (z3.Z3Exception, RecursionError, _PolyTooBig):
+            continue
+    return False
 
 
 def _cvc5_check(hyps, neg_goal, timeout_ms):
@@ -136,12 +357,51 @@ def abstract_check(hyps, goal, timeout_ms=3000):
         for h in hyps:
             s.add(ab.ab(z3.simplify(h)))
         s.add(z3.Not(ab.ab(z3.simplify(goal))))
-        return str(s.check()) == 'unsat'
+        return guarded_check(s, timeout_ms) == 'unsat'
     except z3.Z3Exception:
         return False
 
 
-def check(hyps, goal, timeout_ms=None, sample=None, use_cvc5=False, want_model=True):
+def numeric_refutes(goal, env, funcs=None, tol=1e-7):
+    """True only if the goal is confidently false at the concrete point env (used to obtain a
+    replayable counterexample candidate cheaply; the replay on the real code is the arbiter)"""
+    from .evalterm import evaluate, EvalError
+
+    def val(t):
+        return evaluate(t, env, funcs)
+
+    def ref(g):
+        k = g.decl().kind()
+        ch = g.children()
+        if z3.is_true(g):
+            return False
+        if z3.is_false(g):
+            return True
+        if k == z3.Z3_OP_EQ and ch[0].sort() == z3.RealSort():
+            a, b = val(ch[0]), val(ch[1])
+            return abs(a - b) > tol * (1 + abs(a) + abs(b))
+        if k == z3.Z3_OP_AND:
+            return any(ref(c) for c in ch)
+        if k == z3.Z3_OP_OR:
+            return all(ref(c) for c in ch)
+        if k == z3.Z3_OP_IMPLIES:
+            return bool(val(ch[0])) and ref(ch[1])
+        if k == z3.Z3_OP_ITE:
+            return ref(ch[1]) if val(ch[0]) else ref(ch[2])
+        if k in (z3.Z3_OP_LE, z3.Z3_OP_LT):
+            a, b = val(ch[0]), val(ch[1])
+            return a > b + tol * (1 + abs(a) + abs(b))
+        if k in (z3.Z3_OP_GE, z3.Z3_OP_GT):
+            a, b = val(ch[0]), val(ch[1])
+            return a < b - tol * (1 + abs(a) + abs(b))
+        return False
+    try:
+        return ref(goal)
+    except (EvalError, KeyError, ZeroDivisionError, ValueError, OverflowError):
+        return False
+
+
+def check(hyps, goal, timeout_ms=None, sample=None, use_cvc5=False, want_model=True, witness=None):
     """Decide  hyps |= goal.  Returns (verdict, model, method) with verdict in
     {'unsat' (holds), 'sat' (counterexample), 'unknown'}."""
     timeout_ms = timeout_ms or QUICK_TIMEOUT_MS
@@ -150,7 +410,7 @@ def check(hyps, goal, timeout_ms=None, sample=None, use_cvc5=False, want_model=T
     # 1. rewriter on equalities
     g = goal
     if z3.is_eq(g) and g.arg(0).sort() == z3.RealSort():
-        if is_zero_by_rewriter(g.arg(0) - g.arg(1)):
+        if is_zero_by_rewriter(g.arg(0) - g.arg(1)) or is_zero_by_ratnorm(g.arg(0), g.arg(1)):
             STATS.rewriter += 1
             STATS.solver_s += time.time() - t0
             if sample is not None and len(STATS.samples) < 6:
@@ -165,13 +425,13 @@ def check(hyps, goal, timeout_ms=None, sample=None, use_cvc5=False, want_model=T
             STATS.samples.append({"obligation": sample, "method": "z3 on the linear abstraction",
                                   "goal": _short(goal), "n_hyps": len(hyps)})
         return 'unsat', None, 'z3-abstract'
-    s = z3.Solver()
-    s.set("timeout", int(timeout_ms))
-    for h in hyps:
-        s.add(h)
-    s.add(z3.Not(goal))
+    if witness is not None and numeric_refutes(goal, witness[0], witness[1]):
+        # the path's own witness point falsifies the goal: a counterexample candidate without search
+        STATS.sat += 1
+        STATS.solver_s += time.time() - t0
+        return 'sat', {k: v for k, v in dict(witness[0]).items() if isinstance(v, (int, float))}, 'witness'
     STATS.queries += 1
-    r = str(s.check())
+    r, mdict = forked_check(list(hyps) + [z3.Not(goal)], timeout_ms)
     STATS.solver_s += time.time() - t0
     if r == 'unsat':
         STATS.z3_unsat += 1
@@ -181,7 +441,7 @@ def check(hyps, goal, timeout_ms=None, sample=None, use_cvc5=False, want_model=T
         return 'unsat', None, 'z3'
     if r == 'sat':
         STATS.sat += 1
-        return 'sat', (s.model() if want_model else None), 'z3'
+        return 'sat', mdict, 'z3'
     if use_cvc5:
         t1 = time.time()
         r2 = _cvc5_check(hyps, z3.Not(goal), timeout_ms)
@@ -196,18 +456,14 @@ def check(hyps, goal, timeout_ms=None, sample=None, use_cvc5=False, want_model=T
 
 def reachable(hyps, timeout_ms=None):
     """reachability twin: the hypothesis set must be satisfiable"""
-    s = z3.Solver()
-    s.set("timeout", int(timeout_ms or QUICK_TIMEOUT_MS))
-    for h in hyps:
-        s.add(h)
     t0 = time.time()
-    r = str(s.check())
+    r, md = forked_check(list(hyps), int(timeout_ms or QUICK_TIMEOUT_MS))
     STATS.solver_s += time.time() - t0
     STATS.queries += 1
     STATS.reach_checked += 1
     if r == 'unsat':
         STATS.reach_failed += 1
-    return r, (s.model() if r == 'sat' else None)
+    return r, md
 
 
 def cross_check_cvc5(hyps, goal, timeout_ms=20000):
@@ -230,6 +486,12 @@ def _short(t, n=300):
 
 def model_value(model, t):
     """float value of term t in model (UFs get the model's interpretation)"""
+    if isinstance(model, dict):
+        from .evalterm import evaluate
+        try:
+            return evaluate(_t(t) if not z3.is_expr(t) else t, model)
+        except Exception:
+            return None
     v = model.eval(_t(t) if not z3.is_expr(t) else t, model_completion=True)
     if z3.is_rational_value(v):
         fr = v.as_fraction()
